@@ -37,10 +37,94 @@ func TestVerifC14(t *testing.T) {
 	})
 }
 
+// c14ManyForeignHandles: one slow write on a handle, then more than a thousand reads that name other handle strings
+// (which the server never issued), then the CLOSE of the first handle, all in one burst: however much traffic lies
+// between a write and the close of its handle, the close waits for the write.
+func c14ManyForeignHandles(u *vfUnit, alloc bool) {
+	store := vfNewStore()
+	started := make(chan struct{}, 1)
+	release := make(chan struct{})
+	store.Delay = func(write bool, off int64) {
+		if write && off == 0 {
+			select {
+			case started <- struct{}{}:
+			default:
+			}
+			<-release
+		}
+	}
+	rs, err := vfRawConnect(vfSrvCfg{Kind: vfRS, Alloc: alloc, H: store.Handlers(vfHandlerOpt{OpenFile: u.Index%16 == 5})}, vfPipeOpts{}, true)
+	if err != nil {
+		u.Inconclusive("connect: %v", err)
+		close(release)
+		return
+	}
+	label := fmt.Sprintf("RequestServer/alloc=%v/write, 1100 reads on other handle strings, close", alloc)
+	hr, err := rs.R.Phase(60*time.Second, vfPkt{Type: rfOpen, ID: 2, Path: "/slow", Pflags: rfWrite_ | rfCreat_})
+	if err != nil || len(hr) != 1 || hr[0].Type != rfHandle {
+		u.Violation("open-failed:RequestServer", fmt.Sprintf("%s: %v %v", label, hr, err), nil)
+		close(release)
+		rs.End(60 * time.Second)
+		return
+	}
+	h := hr[0].Handle
+	var stream []byte
+	stream = append(stream, vfPkt{Type: rfWrite, ID: 10, Handle: h, Off: 0, Data: []byte("slowly written")}.Frame()...)
+	for i := 0; i < 1100; i++ {
+		stream = append(stream, vfPkt{Type: rfRead, ID: uint32(100 + i), Handle: fmt.Sprintf("never-issued-%d", i), Off: 0, Len: 8}.Frame()...)
+	}
+	stream = append(stream, vfPkt{Type: rfClose, ID: 5000, Handle: h}.Frame()...)
+	base := rs.R.Count()
+	sent := vfGo(func() { rs.R.Send(stream) })
+	// the write is inside the handler object; the reads are answered meanwhile (in order they wait behind the write's
+	// reply, so nothing arrives yet); then the write is let go
+	if w, _ := vfAwait(vfGo(func() { <-started }), 60*time.Second); w != vfDone {
+		u.Violation("burst-stuck:RequestServer", label+": the write never reached the handler object", nil)
+	}
+	<-sent
+	for spin := 0; spin < 20000; spin++ {
+		runtime.Gosched()
+	}
+	time.Sleep(50 * time.Millisecond)
+	close(release)
+	w, dump := rs.R.WaitCount(base+1102, 120*time.Second)
+	if w == vfStuck {
+		u.Violation("burst-stuck:RequestServer", label+": responses missing and process quiescent\n"+vfTrim(dump, 2000), nil)
+	}
+	for _, body := range rs.R.All()[min(base, rs.R.Count()):] {
+		p, perr := vfParse(body, true)
+		if perr == nil && (p.ID == 10 || p.ID == 5000) && !(p.Type == rfStatus && p.Code == rfOK) {
+			u.Violation("pre-close-request-failed:RequestServer:"+map[uint32]string{10: "WRITE", 5000: "CLOSE"}[p.ID], fmt.Sprintf("%s: request id %d was answered %s", label, p.ID, p), nil)
+		}
+	}
+	if msg := rs.End(120 * time.Second); msg != "" {
+		u.Violation("serve-end:RequestServer", label+": "+msg, nil)
+	}
+	u.Count("bursts", 1)
+	u.Count("bursts_with_a_thousand_foreign_handles", 1)
+	for _, o := range store.Objs() {
+		if o.kind == "stat" {
+			continue
+		}
+		if n := o.inflightAtClose.Load(); n > 0 {
+			u.Violation("close-concurrent-with-rw", fmt.Sprintf("%s: Close of the handler object for %s ran while %d ReadAt/WriteAt calls were in flight", label, o.path, n), nil)
+		}
+		if n := o.closes.Load(); n != 1 {
+			u.Violation("close-count", fmt.Sprintf("%s: handler object for %s closed %d times", label, o.path, n), nil)
+		}
+	}
+	if got, _ := store.Get("/slow"); string(got) != "slowly written" {
+		u.Violation("content-missing-writes:RequestServer", fmt.Sprintf("%s: the file holds %q", label, got), nil)
+	}
+}
+
 func c14Run(u *vfUnit) {
 	r := u.Rng
 	kind := vfKind(u.Index % 2)
 	alloc := (u.Index/2)%2 == 1
+	if kind == vfRS && u.Index%8 == 5 {
+		c14ManyForeignHandles(u, alloc)
+	}
 	roHandles := 0 // read-only handles with a failing read so far in this unit (selects the failure value)
 	for bi := 0; bi < 6; bi++ {
 		nh := []int{1, 2, 3, 8, 1, 4}[(bi+u.Index)%6]
